@@ -219,6 +219,41 @@ def vectorised_call_binds_row_i_of_every_batched_argument_by_name(S):
         S.ensure(f"row-{i}-default-bound", b.get("k") is f.defaults["k"] and sorted(b) == ["c", "k", "x"])
 
 
+@scenario("C13", [UF + ".set_default", UF + ".remove_default", UF + ".necessary_args", UF + ".optional_args", UF + ".__call__"], configs=["3:1"], bounded=BOUND)
+def defaults_can_be_set_and_removed_by_name(S):
+    """set_default(name=v) makes `name` optional with value v (only for declared names, other keys are ignored);
+    remove_default(name) makes it necessary again; a later call binds exactly the current defaults by name"""
+    f, names, defaults = mk_fn(S, S.cfg)  # f(p0, p1, p2=d0)
+    w = S.new(UF, f)
+    v1 = S.opaque("new_default_of_p1")
+    S.I.call(S.getattr(w, "set_default"), [], {"p1": v1, "not_a_parameter": S.opaque("junk")})
+    S.ensure("p1-became-optional", list(S.getattr(w, "necessary_args")) == ["p0"] and sorted(S.getattr(w, "optional_args")) == ["p1", "p2"])
+    S.ensure("foreign-key-ignored", "not_a_parameter" not in S.getattr(w, "defaults"))
+    a0 = S.opaque("a0")
+    S.method(w, "__call__", {"p0": a0})
+    ok = len(f.calls) == 1
+    S.ensure("call-with-the-remaining-necessary-name-succeeds", ok)
+    if ok:
+        b = f.calls[0]["bound"]
+        S.ensure("current-defaults-bound-by-name", b.get("p0") is a0 and b.get("p1") is v1 and b.get("p2") is defaults["p2"])
+    S.I.call(S.getattr(w, "remove_default"), ["p2"], {})
+    S.ensure("p2-became-necessary-again", sorted(S.getattr(w, "necessary_args")) == ["p0", "p2"] and list(S.getattr(w, "optional_args")) == ["p1"])
+    S.ensure_raises("call-without-p2-now-rejected", lambda: S.method(w, "__call__", {"p0": a0}), "AssertionError")
+    S.ensure("the-wrapped-function-keeps-its-own-defaults", f.defaults == defaults)
+
+
+@scenario("C13", [UF + "._set_input_args_for_function", UF + ".__call__"], configs=["keyword-only"])
+def keyword_only_parameters_are_arguments_bound_by_name(S):
+    """a function f(x, *, k) declares k as keyword-only: it is one of the wrapper's arguments (after the positional
+    ones) and is bound by name"""
+    f = UserFn("f", ["x"], kwonly=["k"])
+    w = S.new(UF, f)
+    S.ensure("keyword-only-name-is-an-argument", list(S.getattr(w, "args")) == ["x", "k"])
+    xv, kv = S.opaque("xv"), S.opaque("kv")
+    S.method(w, "__call__", {"k": kv, "x": xv, "other": S.opaque("o")})
+    S.ensure("bound-by-name", len(f.calls) == 1 and f.calls[0]["kwargs"].get("k") is kv and f.calls[0]["kwargs"].get("x") is xv and sorted(f.calls[0]["kwargs"]) == ["k", "x"])
+
+
 @scenario("C13", [DUF + ".__call__", DUF + ".evaluate_function"], configs=["callable", "callable-with-default", "tensor-const", "number-const"])
 def domain_user_function(S):
     """post: callable -> fun(**bound)[:, None] (one extra axis, rows kept); constants -> the constant as tensor"""
